@@ -101,6 +101,8 @@ structure CState where
   store : Store String (Option Nat) Val := []
   rcBinary : Bool := false
   rc : RC String := ⟨[], none⟩
+  colBinary : Bool := false
+  col : Col := ⟨[], []⟩
 
 def kindOf (s : String) : Option Kind :=
   match s with
@@ -229,6 +231,27 @@ def step' (s : CState) (line : String) : CState × String :=
       | some a, some b => (s, if deepEq a b then "ok True" else "ok False")
       | _, _ => (s, "ERR")
     | _, _ => (s, "bad-op")
+  | ["colnew", k, vals, mask] =>
+    match decList vals with
+    | some vs => ({ s with colBinary := k == "b", col := ⟨vs, mask.toList.map (fun c => c.toNat - 48)⟩ }, "ok")
+    | none => (s, "bad-op")
+  | ["colarr", mv] =>
+    let mv? : Option (Option Str) := if mv == "default" || mv == "str" then some none else (decStr mv).map some
+    match mv? with
+    | some m => let r := colStep s.col (.arr m); ({ s with col := r.1 }, "ok " ++ encList r.2)
+    | none => (s, "bad-op")
+  | ["coldata"] => let r := colStep s.col .data; ({ s with col := r.1 }, "ok " ++ encList r.2)
+  | ["colplain"] => let r := colStep s.col .plain; ({ s with col := r.1 }, "ok " ++ encList r.2)
+  | ["colser"] =>
+    -- a category with the masked column `m` and an unmasked column `p` on the same data, written and read back
+    let m := s.col.asArray none
+    if s.colBinary then
+      (s, "ok " ++ encStr ['m'] ++ "=" ++ encList m ++ "~" ++ String.ofList (s.col.mask.map hexDigit) ++ ";" ++
+          encStr ['p'] ++ "=" ++ encList s.col.data ++ "~-")
+    else
+      match categorySerialize ['c'] [(['m'], m), (['p'], s.col.data)] with
+      | .error e => (s, showErr e)
+      | .ok t => (s, match categoryDeserialize t with | .ok c => "ok " ++ showCols c.2 | .error _ => "ERR")
   | ["rcnew", k, cols] =>
     match decLens cols with
     | some cs => ({ s with rcBinary := k == "b", rc := ⟨cs, none⟩ }, "ok")
